@@ -123,6 +123,9 @@ type childResult struct {
 
 func (ck *Check) spawn(b *Batch, seed uint64, args []string, stdin []byte, explain bool) childResult {
 	exe, _ := os.Executable()
+	if b.ChildExe != "" {
+		exe = b.ChildExe
+	}
 	cmd := exec.Command(exe, append([]string{ck.Prop}, args...)...)
 	cmd.Env = append(os.Environ(), "VERIF_SEED_RESOLVED="+strconv.FormatUint(seed, 10))
 	if explain {
